@@ -66,11 +66,9 @@ pub fn sleep_ns_recorder(ns: u64) {
     }
 }
 
-/// stub for `format_time_nanos_curr` (the default resource name). Returns an ALLOCATED one-character string on purpose:
-/// dropping a never-allocated `String::new()` constant made CBMC report spurious allocator failures in
-/// `EntryContext::set_resource` (measured; Kani reads a non-zero capacity from the constant).
+/// stub for `format_time_nanos_curr` (the default resource name)
 pub fn empty_string() -> String {
-    String::from("t")
+    String::new()
 }
 
 // ------------------------------------------------------------------------------------------------
